@@ -9,6 +9,7 @@ REQUIRED = ["CifModel.C04_inv_init", "CifModel.C04_inv_sql", "CifModel.C04_inv_s
             "CifModel.C04_refines_create_block", "CifModel.C04_refines_all_blocks", "CifModel.C04_refines_get_frame", "CifModel.C04_refines_create_loop", "CifModel.C04_refines_add_packet", "CifModel.C04_add_packet_total", "CifModel.C04_refines_get_value", "CifModel.C04_refines_set_value", "CifModel.C04_refines_remove_item", "CifModel.C04_refines_destroy_loop", "CifModel.C04_refines_set_category", "CifModel.C04_refines_set_value_new", "CifModel.C04_refines_add_item", "CifModel.C04_refines_prune", "CifModel.C04_get_value_column", "CifModel.C04_add_packet_is_spec_packet",
             "CifModel.C04_cex_F30_pinned", "CifModel.C04_cex_F34_pinned",
             "CifModel.C04_packets_total_init", "CifModel.C04_packets_total_step", "CifModel.C04_packets_total", "CifModel.C04_packets_total_reads",
+            "CifModel.C04_code_set_category", "CifModel.C04_code_add_packet", "CifModel.C04_code_remove_item",
             "CifModel.Store.schema_tables_link", "CifModel.Store.schema_triggers_link", "CifModel.Store.schema_sql_link",
             "CifModel.Store.schema_messages_link", "CifModel.Store.C05_paths_link"]
 GEN = ["ErrCodes", "Schema"]
